@@ -7,7 +7,9 @@ import (
 )
 
 // Native counterpart of the engine stub
-//   (*client).getRegionAndClientForRPC => vBatchLocate
+//
+//	(*client).getRegionAndClientForRPC => vBatchLocate
+//
 // (the original method is renamed in an overlaid copy of rpc.go, see props.py native_cuts).
 func (c *client) getRegionAndClientForRPC(ctx context.Context, rpc hrpc.Call) (hrpc.RegionClient, error) {
 	return vBatchLocate(c, ctx, rpc)
